@@ -100,14 +100,15 @@ func Main(f vh.Flags) {
 	}
 	// systematic part: for a few small scenarios, EVERY schedule that deviates from the default one ("lowest enabled
 	// mailbox first, externals last") in at most `devs` places — the analogue of a pre-emption bound
-	devs, per := 1, 60
+	devs, per := 1, 40
 	if f.Tier == "thorough" {
-		devs, per = 2, 1500
+		devs, per = 2, 800
 	}
 	explored := 0
-	for i := 0; i < 6; i++ {
+	// every template on every run (each with its own random choices), not a sample of them
+	for k := 0; k < NTemplates; k++ {
 		cr, _ := rng.Derive()
-		scn := template(cr)
+		scn := TemplateAt(cr, k)
 		explored += Explore(scn, devs, per, func(c *Case) { record(out, &Result{Case: *c, Viol: Monitors(c)}) })
 	}
 	out.Count("systematic_schedules", vh.Bucket(explored))
